@@ -52,9 +52,10 @@ pub(crate) fn crypto_secretbox_open_detached_inplace(
     computed_mac.update(data);
     let computed_mac = computed_mac.finalize_to_array();
 
-    cipher.apply_keystream(data);
-
+    // only decrypt once the ciphertext has been authenticated, so that a
+    // rejected ciphertext never ends up decrypted in the caller's buffer
     if mac.ct_eq(&computed_mac).unwrap_u8() == 1 {
+        cipher.apply_keystream(data);
         Ok(())
     } else {
         Err(dryoc_error!("decryption error (authentication failure)"))
